@@ -319,7 +319,7 @@ class Duration(timedelta):
         """
         Return the interval as a native timedelta.
         """
-        return timedelta(seconds=self.total_seconds())
+        return timedelta(microseconds=_total_microseconds(self))
 
     def __str__(self) -> str:
         return self.in_words()
